@@ -39,6 +39,15 @@ SPECIAL = {
     "C18-r2m1": ("math", [], {}, False),
     "C18-r2m2": ("math", [], {}, False),
     "C18-r2m3": ("math", [], {}, False),
+    # round three
+    "C07-r3m1": ("root", ["--release", "--features", "verif-hooks"], {}, False),
+    "C07-r3m2": ("miri", [], {}, False),
+    "C07-r3m3": ("root", ["--features", "verif-hooks"], {}, False),
+    "C20-r3m1": ("root", ["--no-default-features"], {}, False),
+    "C20-r3m2": ("root", [], FMA, True),
+    "C20-r3m3": ("math-manifest", ["--no-default-features"], {}, False),
+    "C03-r3m3": ("root", [], FMA, True),
+    "C11-r3m3": ("root", [], FMA, True),
 }
 
 
@@ -87,15 +96,17 @@ def clean(wt):
 
 def confirm(wtname):
     # "C07" -> worktree /tmp/wt/C07, seeds C07-m<k>;  "R2C07" -> worktree /tmp/wt/R2C07, seeds C07-r2m<k>
-    r2 = wtname.startswith("R2")
-    prop = wtname[2:] if r2 else wtname
+    mm = re.fullmatch(r"R(\d)(C\d\d)", wtname)
+    r2 = bool(mm)
+    rnd = mm.group(1) if mm else ""
+    prop = mm.group(2) if mm else wtname
     wt = os.path.join(WT, wtname)
     res = []
     clean(wt)
     sh(["git", "checkout", "-q", "--detach", HEAD], wt)
     base_pass, base_fail = suite(wt)
     for k in (1, 2, 3):
-        key = f"{prop}-r2m{k}" if r2 else f"{prop}-m{k}"
+        key = f"{prop}-r{rnd}m{k}" if r2 else f"{prop}-m{k}"
         mdir = os.path.join(wt, "out", f"m{k}")
         if not os.path.exists(os.path.join(mdir, "patch.diff")):
             continue
@@ -154,7 +165,7 @@ def confirm(wtname):
 
 
 def main():
-    props = sys.argv[1:] or sorted(p for p in os.listdir(WT) if re.fullmatch(r"(R2)?C\d\d", p))
+    props = sys.argv[1:] or sorted(p for p in os.listdir(WT) if re.fullmatch(r"(R\d)?C\d\d", p))
     allres = []
     with ThreadPoolExecutor(max_workers=int(os.environ.get("JOBS", "5"))) as ex:
         for r in ex.map(confirm, props):
